@@ -386,4 +386,92 @@ theorem final_aliased {cfg : Cfg} {req : Req} {ext : Ext} {hf : Heap} (h : proce
   | minSub s ip hs hw hr ht hx => simp [hpre.aliased]
   | pfxSub s ip id pre fl hs hw hr ht hd hp hx => rfl
 
+/-- the wrapper stage fails only on the secret: if it succeeds for one response it succeeds for any other -/
+theorem wrapper_some_of_some {w : WrapperFacts} {cfg : Cfg} {req : Req} {cresp : Option Resp} {m : Nat}
+    {a : Option String} {f : Fwd} (h : processC2SWrapper w cfg req cresp m a = some f) (cresp' : Option Resp) :
+    ∃ f', processC2SWrapper w cfg req cresp' m a = some f' := by
+  unfold processC2SWrapper at h ⊢
+  split at h
+  · cases h
+  · rename_i hsec; simp [hsec]
+
+/-- if a registration succeeds, it also succeeds with other draws for which `processBdReq` succeeds: the
+client then gets what `regResp` points to in the new final heap -/
+theorem register_with_heap {w : WrapperFacts} {cfg : Cfg} {req : Req} {ext ext' : Ext} {m : Nat} {a : Option String}
+    {c0 : Resp} {f0 : Fwd} (h0 : registerBidirectional w cfg req ext m a = .ok c0 f0)
+    (hsend : ext'.sendOk = ext.sendOk) {hf' : Heap}
+    (hbd' : processBdReq cfg { req with forgedResp := none } ext' = .ok hf') :
+    ∃ f, registerBidirectional w cfg req ext' m a = .ok (hf'.get hf'.rp) f := by
+  unfold registerBidirectional at h0 ⊢
+  simp only at h0 ⊢
+  rw [hbd']
+  simp only
+  split at h0
+  · cases h0
+  · cases h0
+  · split at h0
+    · cases h0
+    · rename_i fw hfw
+      split at h0
+      · rename_i hs
+        obtain ⟨fw', hfw'⟩ := wrapper_some_of_some hfw (hf'.wp.map hf'.get)
+        refine ⟨fw', ?_⟩
+        rw [hfw']
+        simp only
+        rw [hsend, if_pos hs]
+      · cases h0
+
+/-! ### the station's rule -/
+
+/-- whenever the station builds a registration from a wrapper that carries a response, the address of the
+family being built, the port and the parameters are the response's (by the rule of the client) -/
+theorem stationApply_ok {v6 disable : Bool} {cp : Option Params} {dC dR : Derived} {src : IPKind} {r : Resp}
+    {ph : Addr} {port : Nat} {ps : Option Params}
+    (h : stationApply v6 disable cp dC dR src (some r) = .ok ph port ps) :
+    (v6 = false → ∀ x, r.v4 = some x → x ≠ 0 → ph = .v4 x) ∧
+    (v6 = true → ∀ x, r.v6 = some x → ph = .raw x) ∧
+    (∀ p, r.port = some p → port = p % 65536) ∧
+    ps = (if r.params.isSome && !disable then r.params else cp) := by
+  unfold stationApply at h
+  split at h
+  · cases h
+  · split at h
+    · cases h
+    · split at h
+      · cases h
+      · split at h
+        · cases h
+        · cases h
+          refine ⟨?_, ?_, ?_, rfl⟩
+          · intro hv x hx hne; simp [stationOverride, hv, hx, hne]
+          · intro hv x hx; simp [stationOverride, hv, hx]
+          · intro p hp; simp [stationPort, hp]
+
+theorem stationApply_accepts {v6 disable : Bool} {cp : Option Params} {dC dR : Derived} {src : IPKind} {r : Resp}
+    (hder : stationDerived disable dC dR (some r) ≠ .fail)
+    (hsrc : src ≠ .invalid) (h4 : v6 = false → src = .v4)
+    (h6 : v6 = true → ∃ x, r.v6 = some x ∧ ipKind x = .v6) :
+    ∃ ph port ps, stationApply v6 disable cp dC dR src (some r) = .ok ph port ps := by
+  unfold stationApply
+  cases hd : stationDerived disable dC dR (some r) with
+  | fail => exact absurd hd hder
+  | ok dph dport =>
+    simp only
+    cases v6 with
+    | false =>
+      have hs := h4 rfl
+      subst hs
+      cases hv : r.v4 with
+      | none => simp [stationOverride, overrideBad, hv]
+      | some x =>
+        by_cases hx : x = 0
+        · simp [stationOverride, overrideBad, hv, hx]
+        · simp [stationOverride, overrideBad, hv, hx, Addr.kind]
+    | true =>
+      obtain ⟨x, hx, hk⟩ := h6 rfl
+      cases src with
+      | invalid => exact absurd rfl hsrc
+      | v4 => simp [stationOverride, overrideBad, hx, Addr.kind, hk]
+      | v6 => simp [stationOverride, overrideBad, hx, Addr.kind, hk]
+
 end CJ.Registrar
